@@ -1,4 +1,5 @@
 ENTRY = dict(
+    gen=["dicttls"],
     runner="C07", pkg="./cmd/c07", corr=["Corr.C07Corr"], n=dict(quick=48, thorough=1500),
     rule="raw: n generated ClientHello records (0-5 extensions drawn from the generators of every built-in extension type, unknown ids, "
          "GREASE) under 2 of the 8 Fingerprinter flag sets, 2 field-wise mutations each (truncation anywhere / at a structural boundary, a "
